@@ -697,6 +697,146 @@ def run_mgh(chk, path, cases=None):
         finish_case(chk, 'mgh', c, dis, pred, mw[:200], {k: v for k, v in o.items() if k not in ('raw', 'data', 'r_data')}, known=known)
 
 
+# --------------------------------------------------------------------------- MGH: saving onto a file that is still mapped
+INPLACE_HIST = ['self', 'asanyarray-new-image', 'get_fdata-new-image', 'other-object-maps']
+
+
+def inplace_cases(chk):
+    """seed independent: file kind x dtype x 3-D/4-D x history, small (one page) and larger volumes alternating"""
+    out = []
+    for fk in ('mgh-mmap', 'mgh-nommap', 'mgz'):
+        for dt in MGH_DTYPES:
+            for nd in (3, 4):
+                for hist in INPLACE_HIST:
+                    if hist == 'get_fdata-new-image' and np.dtype(dt).kind != 'f':
+                        continue          # get_fdata of an integer file is a fresh float array, not a map
+                    big = len(out) % 2 == 0
+                    shape = ((24, 24, 16) if big else (4, 3, 5)) + ((2,) if nd == 4 else ())
+                    out.append(dict(inplace=1, id=len(out), fk=fk, dt=np.dtype(dt).name, shape=shape, hist=hist,
+                                    vseed=chk.rng.randrange(10 ** 6)))
+    return out
+
+
+def inplace_one(c, root):
+    """Runs in the child.  Returns 'ok' or what is wrong with the file after the save."""
+    from nibabel.freesurfer.mghformat import MGHImage
+    import nibabel as nib
+    d = os.path.join(root, 'ip.%d' % c['id'])
+    os.makedirs(d)
+    p = os.path.join(d, 'vol.mgz' if c['fk'] == 'mgz' else 'vol.mgh')
+    mm = c['fk'] != 'mgh-nommap'
+    rs = np.random.RandomState(c['vseed'])
+    data = rs.randint(1, 100, size=tuple(c['shape'])).astype(c['dt'])
+    aff = np.array([[-2., 0, 0, 10.], [0, 0, 1.5, -20.], [0, -3., 0, 30.], [0, 0, 0, 1.]])
+    with warnings.catch_warnings():
+        warnings.simplefilter('ignore')
+        MGHImage(data, aff).to_filename(p)
+        hist = c['hist']
+        if hist == 'self':
+            img = MGHImage.from_filename(p, mmap=mm)
+            expected = data
+            saver = img
+        elif hist == 'asanyarray-new-image':
+            img = MGHImage.from_filename(p, mmap=mm)
+            arr = np.asanyarray(img.dataobj)
+            saver = MGHImage(arr, img.affine, img.header)
+            expected = data
+        elif hist == 'get_fdata-new-image':
+            img = MGHImage.from_filename(p, mmap=mm)
+            arr = img.get_fdata(dtype=np.float32)
+            saver = MGHImage(arr, img.affine, img.header)
+            expected = data
+        else:
+            other = MGHImage.from_filename(p, mmap=mm)
+            held = np.asanyarray(other.dataobj)          # another object maps the file; it is not read afterwards
+            expected = (data + 1).astype(c['dt'])
+            saver = MGHImage(expected.copy(), aff)
+        try:
+            nib.save(saver, p)
+        except Exception as e:   # noqa   (a refusal is acceptable; a wrong file is not)
+            return f'refused {type(e).__name__}'
+        del saver
+        back = MGHImage.from_filename(p, mmap=False)
+        got = np.asarray(back.dataobj)
+    if got.shape != expected.shape:
+        return f'shape {got.shape} after the save, the saving image held {expected.shape}'
+    if not np.array_equal(got, expected):
+        return (f'{int(np.count_nonzero(got != expected))}/{expected.size} voxels differ from what the saving image held '
+                f'(file now starts {got.ravel()[:4].tolist()}, held {expected.ravel()[:4].tolist()})')
+    if got.dtype.newbyteorder('=') != np.dtype(c['dt']):
+        return f'dtype {got.dtype}'
+    return 'ok'
+
+
+def inplace_child(job_path):
+    job = json.load(open(job_path))
+    ensure_impl_path()
+    for c in job['cases']:
+        print('B %d' % c['id'], flush=True)
+        try:
+            v = inplace_one(c, job['root'])
+        except Exception as e:   # noqa
+            v = f'raised {type(e).__name__}: {e}'[:200]
+        print('V %d %s' % (c['id'], v), flush=True)
+
+
+def run_inplace_children(chk, cases):
+    import subprocess
+    import common
+    verdicts, todo, rounds = {}, list(cases), 0
+    root = os.path.join(chk.workdir, 'inplace.d')
+    os.makedirs(root, exist_ok=True)
+    while todo and rounds < len(cases) + 1:
+        rounds += 1
+        sub = os.path.join(root, 'r%d' % rounds)
+        os.makedirs(sub)
+        jp = os.path.join(sub, 'job.json')
+        json.dump({'root': sub, 'cases': todo}, open(jp, 'w'))
+        try:
+            pr = subprocess.run([common.PY, os.path.abspath(__file__), '--inplace-child', jp], env=common.impl_env(),
+                                capture_output=True, text=True, timeout=300, cwd=sub)
+            rc, out, err = pr.returncode, pr.stdout, pr.stderr
+        except subprocess.TimeoutExpired as e:
+            rc, out, err = 'timeout', (e.stdout.decode() if isinstance(e.stdout, bytes) else (e.stdout or '')), ''
+        begun = None
+        for ln in out.splitlines():
+            if ln.startswith('B '):
+                begun = int(ln[2:])
+            elif ln.startswith('V '):
+                _, i, v = ln.split(' ', 2)
+                verdicts[int(i)] = v
+                begun = None
+        if begun is not None:
+            verdicts[begun] = f'the process died (exit status {rc}) while saving onto the mapped file'
+        elif rc != 0 and not any(c['id'] in verdicts for c in todo):
+            for c in todo:
+                verdicts[c['id']] = f'child could not run (exit status {rc}): {err[-200:]}'
+        todo = [c for c in todo if c['id'] not in verdicts]
+    return verdicts
+
+
+def run_mgh_inplace(chk, only=None):
+    cases = inplace_cases(chk) if only is None else only
+    verdicts = run_inplace_children(chk, cases)
+    # the model's side: a map of the target's data region, with the copy unmap_if_target decides on
+    probe = 'x hsave 1 1 [1,2,1,1,1,0,0] 1 [1,2,3,4,5,6,7,8,9,10,11,12,13,14,15] [5,4,3,2,1] x0102'
+    got = run_model(PROP, [probe, probe.replace('hsave 1 1', 'hsave 1 0').replace('x hsave', 'y hsave')])
+    model_ok = got.get('x', '').startswith('ok ') and got.get('y') == 'err alias'
+    for c in cases:
+        v = verdicts.get(c['id'], 'no verdict')
+        chk.count(key=('mgh-inplace', c['fk'], c['dt'], len(c['shape']), c['hist']), tag='mgh_inplace:' + c['hist'])
+        if v.startswith('refused'):
+            chk.refusal('mgh_inplace:' + v)
+        elif v != 'ok':
+            report(chk, 'property_violation', case=dict(c, kind='mgh-inplace'), predicate=v,
+                   model_output='copy-before-truncate: ' + got.get('x', '')[:40] + ' / without: ' + str(got.get('y')))
+    if not model_ok:
+        chk.disagreements += 1
+        report(chk, 'correspondence', case={'kind': 'mgh-inplace-model'}, model_output=str(got), found_input=False,
+               predicate='model of saving onto a mapped file: expected ok with the copy and err alias without',
+               theorem='C19_mgh_save_onto_mapped_file / C19_mgh_save_without_copy_refuted')
+
+
 # --------------------------------------------------------------------------- label files (no model: np.loadtxt)
 def run_label(chk, path):
     """read_label is np.loadtxt on text; the library has no writer.  Checked directly: a label file
@@ -765,6 +905,10 @@ UNPROVED = [
     'C19_mgh_shape_zooms is about the byte layout of header, data chunk and footer and about shape/zoom bookkeeping',
     'volume-info numeric values are proved to round-trip as text tokens; "%.10g" formatting and float() parsing are '
     'NumPy/CPython (values agree to 10 significant digits, checked by the harness)',
+    'saving onto a file the saved array is mapped from: C19_mgh_save_onto_mapped_file is a small model (a buffer is in memory '
+    'or a map of a file region; the writer truncates the target before reading the array) of the contract of unmap_if_target; '
+    'that np.memmap / the OS behave like that model (zeros or SIGBUS past a truncated end) is an assumption, the code is tied '
+    'to it by the in-place histories run in a child process',
     'label files: read_label is numpy.loadtxt (no writer in the library): no model, direct check only',
     'legacy read-only formats (quad surfaces, old-style curv, old-style colour tables) and write_annot(fill_ctab=False) '
     'with an inconsistent fifth column (the writer warns) are outside the theorems',
@@ -780,7 +924,9 @@ def run(chk: Check):
                 'distinct non-zero packed values, labels in {-1}+[0,n), fill_ctab both ways, 4/5 columns, long/empty/multi-byte UTF-8 (given as str or bytes) '
                 'names, colour tables of dtype int64/int32/uint32 and the narrow uint8/int8/int16/uint16, plus one black-colour case (S-C19a) and three refusals; MGH: 1-5 '
                 'dims x 4 dtypes x zooms/TR/footer bit patterns, .mgz for a fifth, histories in which the affine changes after TR was '
-                'set (in place, header reuse, reuse of a loaded header); label files: direct read check. Distinct by '
+                'set (in place, header reuse, reuse of a loaded header), and in a child process saves onto the file the image '
+                'was loaded from / a new image holding np.asanyarray(dataobj) or get_fdata() of it / a file another object maps '
+                '(.mgh mmap on and off, .mgz, 4 dtypes, 3-D/4-D, one-page and multi-page volumes); label files: direct read check. Distinct by '
                 'the full input')
     chk.assumptions = ['float casts (float64 -> float32, float32 -> float64), "%.10g" formatting and float()/int() parsing, utf-8 '
                        'encode/decode of valid text are NumPy/CPython: the model moves bit patterns and text tokens',
@@ -797,6 +943,7 @@ def run(chk: Check):
     run_morph(chk, os.path.join(d, 'lh.curv'))
     run_annot(chk, os.path.join(d, 'lh.annot'))
     run_mgh(chk, os.path.join(d, 'vol'))
+    run_mgh_inplace(chk)
     run_label(chk, os.path.join(d, 'lh.label'))
     vm(chk)
 
@@ -815,6 +962,12 @@ def replay(chk, obj):
             print('nothing to replay:', obj.get('predicate'))
             return 1
         kind = c.pop('kind')
+        if kind == 'mgh-inplace':
+            chk.build()
+            c['shape'] = tuple(c['shape'])
+            v = run_inplace_children(chk, [c]).get(c['id'], 'no verdict')
+            print('property holds on this case' if v == 'ok' else 'fails again: ' + v)
+            return 0 if v == 'ok' else 1
         if kind == 'label':
             print('label cases are re-run by ./check C19 with VERIF_SEED=%s' % obj.get('seed'))
             return 1
@@ -836,3 +989,9 @@ def replay(chk, obj):
         return 1 if (bad or chk.known_hits) else 0
     finally:
         shutil.rmtree(chk.workdir, ignore_errors=True)
+
+
+if __name__ == '__main__':
+    import sys
+    if len(sys.argv) == 3 and sys.argv[1] == '--inplace-child':
+        inplace_child(sys.argv[2])
